@@ -813,6 +813,9 @@ class FuncTranslator:
             ren.append(f'("{pn}", "{root}")')
         rn = "[" + ", ".join(ren) + "]"
         self.writes = True
+        for a, pn in zip(args, tmod.pnames[k]):
+          if isinstance(a, ast.Name) and pn.endswith("_out"):
+            self.written_now.add(self.alias.get(a.id, (a.id, []))[0])
         if rtype == "WS":
           call = f"(Write.renameAll {rn} {call})"
         else:
@@ -1172,6 +1175,15 @@ class FuncTranslator:
           a0 = a0.value
         if isinstance(a0, ast.Name) and a0.id in views:
           out.add(views[a0.id])
+      elif isinstance(n, ast.Call):
+        tg = self.mod.resolve_func(ast.unparse(n.func))
+        if tg is not None and tg[0].func_writes(tg[1]):
+          # arrays handed to a writing callee: its output parameters (by the repo's `_out` naming) count as written here
+          callee = tg[0].funcs.get(tg[1])
+          pn = [p.arg for p in callee.args.args] if callee is not None else []
+          for a, p in zip(n.args, pn):
+            if isinstance(a, ast.Name) and a.id in views and p.endswith("_out"):
+              out.add(views[a.id])
     return out
 
   def write_val(self, e, t, node):
